@@ -4,18 +4,29 @@
 (* operation with the same arguments".  One line per pair of request targets   *)
 (* sent to a regenerated server: a, b the two path texts, oa, ob what each     *)
 (* reached (operation and arguments, or the status), rawA, rawB whether        *)
-(* net/url kept no raw path for it (the text equals Go's default encoding).    *)
+(* net/url kept no raw path for it (the text equals Go's default encoding),    *)
+(* reachedA, reachedB whether an operation was reached at all.                 *)
 EXTENDS Normalize, ObsLib
 CONSTANT KnownDeviations
 
 \* Dev_PlainSpellingNotNormalized: the generated router normalizes only when net/url
 \* kept a raw path; a target that equals Go's default encoding is matched in its decoded
-\* form against the (escaped) static text of the templates.
+\* form against the (escaped) static text of the templates.  What the deviation explains is
+\* exactly this: of two equivalent spellings the plain one (no raw path kept) reaches nothing
+\* while the other reaches the operation; two spellings that both reach something must agree.
+\* Dev_RawTemplateTextMatchedEscaped: the mirror image for a template whose key is written
+\* with the raw (non-ASCII) character: its static text is kept raw, so only the decoded
+\* path (plain spelling, no raw path kept) matches it, and every spelling for which a raw
+\* path is kept is normalized to the escaped form and finds nothing.
+NamesNonASCII(s) == \E i \in 1..(Len(s) - 2) : s[i] = PCT /\ IsHex(s[i + 1]) /\ HexVal(s[i + 1]) >= 8
 Verdict(o) ==
   IF Invalid(o.a) \/ Invalid(o.b) THEN "ok"
   ELSE IF Canon(o.a) # Canon(o.b) THEN "ok"           \* not equivalent: nothing is demanded of the pair
   ELSE IF o.oa = o.ob THEN "ok"
-  ELSE IF o.rawA # o.rawB /\ "Dev_PlainSpellingNotNormalized" \in KnownDeviations THEN "known=Dev_PlainSpellingNotNormalized"
+  ELSE IF o.rawA # o.rawB /\ o.reachedA # o.reachedB /\ (IF o.rawA THEN ~o.reachedA ELSE ~o.reachedB)
+          /\ "Dev_PlainSpellingNotNormalized" \in KnownDeviations THEN "known=Dev_PlainSpellingNotNormalized"
+  ELSE IF o.rawA # o.rawB /\ o.reachedA # o.reachedB /\ (IF o.rawA THEN o.reachedA ELSE o.reachedB) /\ NamesNonASCII(Canon(o.a))
+          /\ "Dev_RawTemplateTextMatchedEscaped" \in KnownDeviations THEN "known=Dev_RawTemplateTextMatchedEscaped"
   ELSE "viol"
 
 VARIABLE l
